@@ -104,6 +104,17 @@ class Ctx:
                                        % (rule, n, minimum))
         return n
 
+    def attempt(self, fn, *args, **kw):
+        """run one group of rules; if it cannot be decided (AnalysisError / vanished anchor) remember why and go on with the other groups: a violation
+        another group can still establish must not be lost behind an analysis error (violations take precedence)"""
+        from .model import AnchorError
+        try:
+            return fn(*args, **kw)
+        except (AnalysisError, AnchorError) as e:
+            if self.broken is None:
+                self.broken = str(e)
+            return None
+
     def need(self, cond, msg):
         if not cond:
             raise AnalysisError(msg)
